@@ -174,7 +174,7 @@ def specToJson (σ : Spec) : Json :=
   Json.mkObj [("terms", listToJson termToJson σ.terms), ("fs", ratToJson σ.fs)]
 
 /-- `{"op":"prep_spec","n0":[…],"fs0":"r","ops":[…]}` → the specification fold after every prefix
-    (with the active decimation factors). -/
+    (with the active decimation factors, and whether `Op.accepted` held for the last call). -/
 def prepSpec (j : Json) : Except String Json := do
   let n0 ← listOf natOfJson (← field j "n0")
   let fs0 ← ratOfJson (← field j "fs0")
@@ -185,9 +185,10 @@ def prepSpec (j : Json) : Except String Json := do
   let mut qs : List Nat := []
   let mut out : Array Json := #[specToJson σ]
   for op in ops do
+    let acc := op.accepted (σ.terms.map (Prep.Term.len n0f)) σ.fs
     σ := specStep n0f init σ op
     qs := qsStep qs op
-    out := out.push ((specToJson σ).setObjVal! "qs" (natsToJson qs))
+    out := out.push (((specToJson σ).setObjVal! "qs" (natsToJson qs)).setObjVal! "accepted" (Json.bool acc))
   pure (Json.arr out)
 
 def ops : List (String × (Json → Except String Json)) :=
